@@ -51,6 +51,8 @@ type XferInfo struct {
 	ExpectOK  bool // model: the destination must accept (valid, unblocked receiver)
 	Granter   int  // >= 0: executed under an authz grant of this account
 	Sentinel  bool // amount was the "entire balance" sentinel
+	FarTimeout bool // the timeout lies far beyond anything the counterparty client has seen
+	Deferred   bool // submitted to the mempool, executed by a later block operation
 	Fwd       *FwdInfo
 }
 
@@ -384,6 +386,19 @@ func (p *Core) execXfer(op sim.Op) {
 		Burn: strings.HasPrefix(denom, "ibc/") && strings.HasPrefix(path, r.Port[d]+"/"+r.ID[d]+"/"), Alias: alias, Memo: memo, ExpectOK: valid}
 	p.tok.pending[op.T] = x
 	x.Granter = granter
+	x.Deferred = op.X&flagDefer != 0
+	dstNow := p.chainTime(dst.Idx)
+	if dst.LastTime.After(dstNow) {
+		dstNow = dst.LastTime
+	}
+	switch {
+	case !th.IsZero():
+		x.FarTimeout = int64(th.RevisionHeight) >= dst.Height+100
+	case ts != 0 && (r.V2 || alias):
+		x.FarTimeout = int64(ts) >= dstNow.Unix()+1800
+	case ts != 0:
+		x.FarTimeout = int64(ts) >= dstNow.UnixNano()+int64(30*time.Minute)
+	}
 	if op.N < 0 { // the "entire balance" sentinel amount
 		msg.Token.Amount = transfertypes.UnboundedSpendLimit()
 		x.Sentinel = true
@@ -437,6 +452,7 @@ func (p *Core) applyXfer(ci int, r *sim.TxResult) {
 	if !r.OK() {
 		w.Stats.Probe("transfer_refused")
 		w.Stats.NonTrivial("xfer-refused:" + rt.Kind + ":" + classifyDenom(x.SrcDenom))
+		p.judgeRefusedTransfer(ci, r, rt, d, x)
 		if r.Space == ratelimittypes.ModuleName && r.Code == ratelimittypes.ErrQuotaExceeded.ABCICode() {
 			w.Stats.Probe("send_refused_for_quota")
 			w.Stats.NonTrivial("rl-send-refused:" + rt.Kind)
